@@ -16,6 +16,7 @@ CONSTANTS
   Mutation = "none"
   KeepHist = FALSE
   MaxGens = 1
+  Persistent = FALSE
 INVARIANT H_Globals
 INVARIANT H_CallerObjects
 INVARIANT H_CallIndep
